@@ -764,23 +764,35 @@ inline CellP make_stack_cc_qr(QRWorld &Q, size_t n, const std::vector<size_t> &p
 	return c;
 }
 
+// The public coin a of the local generator re-derivation X::SetupGenerators_publiccoin(a): acoin 0 = keep the
+// constructor's generators, 1 = a small value, 2 = a value of the size of the group order.  Both sides re-derive with
+// the same a after construction (the multi-step sequence construct -> SetupGenerators_publiccoin(a) -> prove/verify).
+inline Z coin_a(unsigned acoin)
+{
+	Z a(42UL);
+	if (acoin == 2) { uint64_t x = mcenv::env_seed() ^ 0xa5a5a5a5ULL; mpz_set_ui(a, 1); for (int i = 0; i < 3; i++) { mpz_mul_2exp(a, a, 53); mpz_add_ui(a, a, mcenv::splitmix(x) >> 11); } }
+	return a;
+}
+
 // ================================================================================================ Groth: SKC alone
-struct SKCWorld { GrothSKC *P, *V; size_t nmax; unsigned le, ps, qs;
-	SKCWorld(uint64_t seed, size_t n, unsigned l, unsigned p_, unsigned q_) : P(NULL), V(NULL), nmax(n), le(l), ps(p_), qs(q_)
+struct SKCWorld { GrothSKC *P, *V; size_t nmax; unsigned le, ps, qs, acoin; Z a; std::string ctor_text;
+	SKCWorld(uint64_t seed, size_t n, unsigned l, unsigned p_, unsigned q_, unsigned ac) : P(NULL), V(NULL), nmax(n), le(l), ps(p_), qs(q_), acoin(ac)
 	{
 		with_coins(seed, 11000 + n * 97 + l, [&]() {
 			P = new GrothSKC(n, l, p_, q_);
 			std::stringstream g;
 			P->PublishGroup(g);
+			ctor_text = g.str();
 			V = new GrothSKC(n, g, l, p_, q_);
+			if (acoin) { a = coin_a(acoin); P->SetupGenerators_publiccoin(a); V->SetupGenerators_publiccoin(a); }
 			if (!P->CheckGroup() || !V->CheckGroup()) throw std::runtime_error("harness: SKC CheckGroup failed");
 		});
 	} };
-inline SKCWorld &skcworld(size_t nmax, unsigned le, unsigned ps, unsigned qs)
+inline SKCWorld &skcworld(size_t nmax, unsigned le, unsigned ps, unsigned qs, unsigned acoin = 0)
 {
 	static std::map<std::string, SKCWorld *> cache;
-	std::string k = drv::str(nmax) + "/" + drv::str(le) + "/" + drv::str(ps) + "/" + drv::str(qs);
-	if (!cache.count(k)) cache[k] = new SKCWorld(mcenv::env_seed(), nmax, le, ps, qs);
+	std::string k = drv::str(nmax) + "/" + drv::str(le) + "/" + drv::str(ps) + "/" + drv::str(qs) + "/" + drv::str(acoin);
+	if (!cache.count(k)) cache[k] = new SKCWorld(mcenv::env_seed(), nmax, le, ps, qs, acoin);
 	return *cache[k];
 }
 
@@ -872,6 +884,16 @@ inline CellP make_skc(SKCWorld &S, size_t n, const std::vector<size_t> &pi, int 
 		}
 		out.push_back(rebuilt("com.h", ix(3), K_ELEM, "order2-input"));
 		out.push_back(rebuilt("com.p", ix(0), K_EXACT, ""));
+		if (st->S->acoin)
+		{
+			// the public coin of SetupGenerators_publiccoin(a): the verifier alone re-derives its generators from another a
+			PubIn a;
+			a.name = "coin.a", a.tag = cp->T(K_EXACT, "coin.a");
+			a.getv = [s2]() { return s2->S->a; };
+			a.setv = [s2](const Z &w) { std::stringstream g(s2->S->ctor_text); delete s2->alt; s2->alt = new GrothSKC(s2->S->nmax, g, s2->S->le, s2->S->ps, s2->S->qs); s2->alt->SetupGenerators_publiccoin(w); };
+			a.restore = [s2]() { delete s2->alt; s2->alt = NULL; };
+			out.push_back(a);
+		}
 		// com.q is not mutated: the SKC verifiers assert() that the challenge e is invertible modulo q, so a caller who
 		// passes a composite q makes the library abort; CheckGroup() is the documented precondition (C06's subject)
 	};
@@ -879,15 +901,17 @@ inline CellP make_skc(SKCWorld &S, size_t n, const std::vector<size_t> &pi, int 
 }
 
 // ================================================================================================ Groth VSSHE / Hoogh VRHE on VTMF stacks
-struct ShWorld { World *W; GrothVSSHE *vsP, *vsV; HooghSchoenmakersSkoricVillegasVRHE *vrP, *vrV; size_t nmax; unsigned le;
-	ShWorld(uint64_t seed, World &w, size_t n, unsigned l) : W(&w), vsP(NULL), vsV(NULL), vrP(NULL), vrV(NULL), nmax(n), le(l)
+struct ShWorld { World *W; GrothVSSHE *vsP, *vsV; HooghSchoenmakersSkoricVillegasVRHE *vrP, *vrV; size_t nmax; unsigned le, acoin; Z a; std::string ctor_text;
+	ShWorld(uint64_t seed, World &w, size_t n, unsigned l, unsigned ac) : W(&w), vsP(NULL), vsV(NULL), vrP(NULL), vrV(NULL), nmax(n), le(l), acoin(ac)
 	{
 		with_coins(seed, 13000 + n * 89 + l, [&]() {
 			BarnettSmartVTMF_dlog *A = w.A;
 			vsP = new GrothVSSHE(n, A->p, A->q, A->k, A->g, A->h, l, w.psize, w.qsize);
 			std::stringstream g;
 			vsP->PublishGroup(g);
+			ctor_text = g.str();
 			vsV = new GrothVSSHE(n, g, l, w.psize, w.qsize);
+			if (acoin) { a = coin_a(acoin); vsP->SetupGenerators_publiccoin(a); vsV->SetupGenerators_publiccoin(a); }
 			if (!vsP->CheckGroup() || !vsV->CheckGroup()) throw std::runtime_error("harness: VSSHE CheckGroup failed");
 			vrP = new HooghSchoenmakersSkoricVillegasVRHE(A->p, A->q, A->g, A->h, w.psize, w.qsize);
 			std::stringstream g2;
@@ -896,11 +920,11 @@ struct ShWorld { World *W; GrothVSSHE *vsP, *vsV; HooghSchoenmakersSkoricVillega
 			if (!vrP->CheckGroup() || !vrV->CheckGroup()) throw std::runtime_error("harness: VRHE CheckGroup failed");
 		});
 	} };
-inline ShWorld &shworld(World &W, size_t nmax, unsigned le)
+inline ShWorld &shworld(World &W, size_t nmax, unsigned le, unsigned acoin = 0)
 {
 	static std::map<std::string, ShWorld *> cache;
-	std::string k = drv::str(W.psize) + "/" + drv::str(W.qsize) + "/" + drv::str(nmax) + "/" + drv::str(le);
-	if (!cache.count(k)) cache[k] = new ShWorld(mcenv::env_seed(), W, nmax, le);
+	std::string k = drv::str(W.psize) + "/" + drv::str(W.qsize) + "/" + drv::str(nmax) + "/" + drv::str(le) + "/" + drv::str(acoin);
+	if (!cache.count(k)) cache[k] = new ShWorld(mcenv::env_seed(), W, nmax, le, acoin);
 	return *cache[k];
 }
 
@@ -1043,6 +1067,16 @@ inline CellP make_shuffle(ShWorld &S, int proto, int mode, size_t n, const std::
 				g.neighbours.push_back(line_value(st->vstext, 8 + (i + 1) % st->n));
 				out.push_back(g);
 			}
+			if (st->S->acoin)
+			{
+				// the public coin of GrothVSSHE::SetupGenerators_publiccoin(a): the verifier alone re-derives from another a
+				PubIn a;
+				a.name = "coin.a", a.tag = cp->T(K_EXACT, "coin.a");
+				a.getv = [s2]() { return s2->S->a; };
+				a.setv = [s2](const Z &w) { std::stringstream g(s2->S->ctor_text); delete s2->vsAlt; s2->vsAlt = new GrothVSSHE(s2->S->nmax, g, s2->S->le, s2->W->psize, s2->W->qsize); s2->vsAlt->SetupGenerators_publiccoin(w); };
+				a.restore = [s2]() { delete s2->vsAlt; s2->vsAlt = NULL; };
+				out.push_back(a);
+			}
 		}
 		else
 		{
@@ -1065,19 +1099,20 @@ inline CellP make_shuffle(ShWorld &S, int proto, int mode, size_t n, const std::
 
 // ================================================================================================ commitments
 struct ComSt { int mode; size_t n; PedersenCommitmentScheme *P, *V; PedersenTrapdoorCommitmentScheme *tP, *tV;
-	std::vector<mpz_ptr> m, mV; Z c, r, tm; PedersenCommitmentScheme *alt; PedersenTrapdoorCommitmentScheme *talt; std::string gtext; size_t nmax; unsigned ps, qs;
-	ComSt() : mode(0), n(0), P(NULL), V(NULL), tP(NULL), tV(NULL), alt(NULL), talt(NULL), nmax(0), ps(0), qs(0) {}
+	std::vector<mpz_ptr> m, mV; Z c, r, tm; PedersenCommitmentScheme *alt; PedersenTrapdoorCommitmentScheme *talt; std::string gtext, ctor_text; size_t nmax; unsigned ps, qs, acoin; bool without_h; Z a;
+	ComSt() : mode(0), n(0), P(NULL), V(NULL), tP(NULL), tV(NULL), alt(NULL), talt(NULL), nmax(0), ps(0), qs(0), acoin(0), without_h(true) {}
 	~ComSt() { delete alt; delete talt; for (size_t i = 0; i < m.size(); i++) { mpz_clear(m[i]), mpz_clear(mV[i]); delete [] m[i]; delete [] mV[i]; } delete P; delete V; delete tP; delete tV; } };
 
 // The "transcript" of a commitment opening is (c, r, m_1..m_n): one line each; the verifier is Verify(c, r, m).
-inline CellP make_commit(int mode /*0 Pedersen, 1 trapdoor*/, size_t nmax, size_t n, unsigned ps, unsigned qs)
+inline CellP make_commit(int mode /*0 Pedersen, 1 trapdoor*/, size_t nmax, size_t n, unsigned ps, unsigned qs, unsigned acoin = 0, bool without_h = true)
 {
 	CellP c(new Cell);
 	std::shared_ptr<ComSt> st(new ComSt);
-	st->mode = mode, st->n = n, st->nmax = nmax, st->ps = ps, st->qs = qs;
+	st->mode = mode, st->n = n, st->nmax = nmax, st->ps = ps, st->qs = qs, st->acoin = acoin, st->without_h = without_h;
 	with_coins(mcenv::env_seed(), 14000 + nmax * 7 + mode, [&]() {
 		std::stringstream g;
-		if (mode == 0) { st->P = new PedersenCommitmentScheme(nmax, ps, qs); st->P->PublishGroup(g); st->V = new PedersenCommitmentScheme(nmax, g, ps, qs);
+		if (mode == 0) { st->P = new PedersenCommitmentScheme(nmax, ps, qs); st->P->PublishGroup(g); st->ctor_text = g.str(); st->V = new PedersenCommitmentScheme(nmax, g, ps, qs);
+			if (acoin) { st->a = coin_a(acoin); st->P->SetupGenerators_publiccoin(st->a, without_h); st->V->SetupGenerators_publiccoin(st->a, without_h); }
 			if (!st->P->CheckGroup() || !st->V->CheckGroup()) throw std::runtime_error("harness: Pedersen CheckGroup failed"); }
 		else { st->tP = new PedersenTrapdoorCommitmentScheme(ps, qs); st->tP->PublishGroup(g); st->tV = new PedersenTrapdoorCommitmentScheme(g, ps, qs);
 			if (!st->tP->CheckGroup() || !st->tV->CheckGroup()) throw std::runtime_error("harness: trapdoor CheckGroup failed"); }
@@ -1153,6 +1188,15 @@ inline CellP make_commit(int mode /*0 Pedersen, 1 trapdoor*/, size_t nmax, size_
 		{
 			for (size_t i = 0; i < st->n; i++) out.push_back(rebuilt("com.g", 4 + i, K_ELEM, "order2-input"));
 			out.push_back(rebuilt("com.h", 3, K_ELEM, "order2-input")), out.push_back(rebuilt("com.p", 0, K_EXACT, ""));
+			if (st->acoin)
+			{
+				PubIn a;
+				a.name = "coin.a", a.tag = cp->T(K_EXACT, "coin.a");
+				a.getv = [s2]() { return s2->a; };
+				a.setv = [s2](const Z &w) { std::stringstream g(s2->ctor_text); delete s2->alt; s2->alt = new PedersenCommitmentScheme(s2->nmax, g, s2->ps, s2->qs); s2->alt->SetupGenerators_publiccoin(w, s2->without_h); };
+				a.restore = [s2]() { delete s2->alt; s2->alt = NULL; };
+				out.push_back(a);
+			}
 		}
 		else
 		{
@@ -1489,6 +1533,40 @@ inline std::vector<Spec> specs(int purpose, const std::string &tier, const std::
 						add_spec(v, "vrhe2:le" + drv::str(L.le) + ":n" + drv::str(n) + ":r" + drv::str(r), 1, [L, n, p]() { return make_shuffle(shworld(world(L.ps, L.qs), n, L.le), 2, 2, n, p); });
 					}
 		}
+	// ---- generators re-derived from a public coin: construct on both sides, both call SetupGenerators_publiccoin(a)
+	//      with the same a (two values of a), then the honest proof in all three forms, directly and through the wrappers
+	for (size_t li = 0; li < les.size(); li++)
+	{
+		LeCfg L = les[li];
+		if (!c5 && !thorough && (li == 1)) continue;
+		for (unsigned ac = 1; ac <= 2; ac++)
+			for (size_t n = 2; n <= 3; n++)
+				for (size_t extra = 0; extra < 2; extra++)
+				{
+					if (c5 && (extra == 1 || (n == 3 && !thorough) || (ac == 2 && !thorough))) continue;
+					std::vector<size_t> p = perm_of(n, n == 2 ? 1 : 4);
+					unsigned sds = c5 ? 1 : (thorough ? 16 : 3);
+					for (int mode = 0; mode < 3; mode++)
+					{
+						if (!le_ok(L.le, mode)) continue;
+						if (want("skc"))
+							add_spec(v, "skc" + drv::str(mode) + ":o1:le" + drv::str(L.le) + ":N" + drv::str(n + extra) + ":n" + drv::str(n) + ":p" + perm_str(p) + ":a" + drv::str(ac), sds,
+								[L, n, extra, p, mode, ac]() { return make_skc(skcworld(n + extra, L.le, L.ps, L.qs, ac), n, p, mode, true); });
+						if (want("groth"))
+							for (int proto = 0; proto < 2; proto++)
+							{
+								if (proto == 1 && mode == 0) continue;
+								add_spec(v, std::string(proto == 0 ? "vsshe" : "groth") + drv::str(mode) + ":le" + drv::str(L.le) + ":N" + drv::str(n + extra) + ":n" + drv::str(n) + ":p" + perm_str(p) + ":a" + drv::str(ac), sds,
+									[L, n, extra, p, proto, mode, ac]() { return make_shuffle(shworld(world(L.ps, L.qs), n + extra, L.le, ac), proto, mode, n, p); });
+							}
+					}
+				}
+	}
+	if (want("commit"))
+		for (unsigned ac = 1; ac <= 2; ac++)
+			for (int wh = 0; wh < 2; wh++)
+				for (size_t n = 1; n <= 3; n += 2)
+					add_spec(v, "pedersen:N3:n" + drv::str(n) + ":a" + drv::str(ac) + (wh ? ":keep-h" : ":new-h"), c5 ? 1 : sd, [n, ac, wh]() { return make_commit(0, 3, n, 256, 160, ac, wh != 0); });
 	// ---- commitments
 	if (want("commit"))
 	{
